@@ -625,6 +625,7 @@ func genC16(g *Rng, tier string, emit func(Op)) {
 	if thorough {
 		plans = []plan{{128, 4000}, {130, 300}, {132, 300}, {134, 300}, {144, 300}, {160, 1000}, {192, 1000}, {256, 1400}, {320, 350}, {384, 300}, {448, 150}, {512, 200}, {1024, 8}}
 	}
+	emitHelpersConcurrent(g, thorough, emit)
 	// (d) derived parameters: every shipped set, and base parameters in which no two lengths agree
 	// (only the 4096-bit set has Lm != Lh, and no key of that size is generated here)
 	for _, ln := range []int{1024, 2048, 4096} {
